@@ -285,6 +285,9 @@ pub fn uni_opt_real<const H: usize, const N: usize, const START: usize>() {
 pub fn uni_prefilter<const REP: u8, const H: usize, const N: usize>() {
     let i = inputs::<REP, H, N, 0>();
     let only_greedy: bool = kani::any();
+    // call-site precondition: a one-character needle is always prefiltered with only_greedy
+    // (the backward scan for the last needle character starts AFTER `start`)
+    kani::assume(N >= 2 || only_greedy);
     let m = small_matcher(i.cfg.clone(), 8);
     let needle = if REP == 2 { Utf32Str::Unicode(&i.needle) } else { Utf32Str::Ascii(&i.needle_b) };
     let r = m.prefilter_non_ascii(&i.hay, needle, only_greedy);
